@@ -124,7 +124,7 @@ func RunInProcess(root string, scripts []ScriptFile, o RunOpts) RunResult {
 		os.MkdirAll(res.WorkRoot, 0o777)
 		p.WorkdirRoot = res.WorkRoot
 	}
-	if o.Deadline > 0 {
+	if o.Deadline != 0 { // (negative: a deadline that is already past when RunT starts)
 		p.Deadline = time.Now().Add(o.Deadline)
 	}
 	rt := &RecT{Parallel_: o.Parallel}
